@@ -831,7 +831,11 @@ fn run_writer(out: &mut dyn Write, t: &[&str]) {
     let head = unhex(t[1]);
     let seq = unhex(t[2]);
     let qual = unhex(t[3]);
-    let w: usize = t[4].parse().unwrap();
+    let w: usize = match t[4] {
+        "M" => usize::MAX,
+        "H" => isize::MAX as usize,
+        x => x.parse().unwrap(),
+    };
     let lens: Vec<usize> = list(t[5]).iter().map(|x| x.parse().unwrap()).collect();
     let mut chunks: Vec<&[u8]> = vec![];
     let mut rest: &[u8] = &seq;
